@@ -13,11 +13,16 @@
      msg     = (idopt typeopt z<retry ns> ((n<comment?> x<text>) ...))
      call    = (n0 n<msg index>) Send | (n1) Flush
      script  = (verdict ...), one per Write/Flush of the writer: () ok | (n<k> n<e>) fail
+               e is an opaque, non-zero index here; the harness builds the error VALUE from it
+               (e/1000 = its "character": its own opaque type, or a value that is / wraps a sentinel of
+               net/http, io, context, net, os, syscall, the library) and projects what a call returned
+               back to the index by identity (harness/cmd/impl-run/session_errs.go)
      onsopt  = () | (((x<topic> ...) n<ok> statusopt n<empty-non-nil topics?> presetopt))
      presetopt = () | ((x<Content-Type value> ...))   assigned to Header()["Content-Type"] before
                                        the session's first Send/Flush
      perropt = () | (x<text> n<kind> x<prefix>)   text = err.Error(); kind/prefix: which error value
-                                       the harness builds (sentinels, wraps - see session.go); the
+                                       the harness builds (sentinels, wraps, the error characters
+                                       above - see session.go); the
                                        server answers with the text whatever the error is
    output : (n1)                                        kind 0, Upgrade refused
             (n0 (n<returned> (entry ...)) ...)          kind 0, per call
